@@ -348,7 +348,7 @@ func raiseAmounts(s *pf.GameState, p *pf.PlayerState, r *rand.Rand) []int64 {
 	return []int64{cw + 1, cw + prs - 1, cw + prs, cw + prs + 1, cw + 2*prs, 2*cw + prs, in - 1, in, in + 1, cw + 1 + r.Int63n(in+1)}
 }
 
-var badAmounts = []int64{0, -1, -7, -1000000000, 1000000000}
+var badAmounts = []int64{0, -1, -7, -100000000, 100000000}
 
 func actionOp(a string, seat int, s *pf.GameState, r *rand.Rand, wild bool) HOp {
 	p := s.Players[seat]
@@ -429,8 +429,8 @@ func (h *hand) probeAll(r *rand.Rand) {
 		for _, a := range allActions {
 			switch a {
 			case "Bet", "Raise":
-				amts := []int64{-1000000000, -s.Meta.Blind.BB, -1, 0, 1, cw - 1, cw, cw + 1, cw + prs - 1, cw + prs, cw + prs + 1,
-					p.StackSize - 1, p.StackSize, p.StackSize + 1, p.InitialStackSize, p.InitialStackSize + 1, 1000000000}
+				amts := []int64{-100000000, -s.Meta.Blind.BB, -1, 0, 1, cw - 1, cw, cw + 1, cw + prs - 1, cw + prs, cw + prs + 1,
+					p.StackSize - 1, p.StackSize, p.StackSize + 1, p.InitialStackSize, p.InitialStackSize + 1, 100000000}
 				seen := map[int64]bool{}
 				for _, x := range amts {
 					if seen[x] {
